@@ -30,7 +30,7 @@ import sim
 import views
 
 PID = "C01"
-PROPS = ["Aldy.Props.C01", "Aldy.Props.C01Minor"]
+PROPS = ["Aldy.Props.C01", "Aldy.Props.C01Minor", "Aldy.Props.C01Spec"]
 TRUSTED_EXTRA = ["pysam (BAM writing / reading)", "indelpost (indel realignment inside aldy)", "the read simulator sim.py"]
 ASSUMPTIONS = ["reads tile every retained region exactly (uniform depth), no sequencing error, mapping quality 60",
                "the oracle's first clause applies when the planted structure is among the optimal structures reported by the real CN stage"]
